@@ -93,11 +93,11 @@ def history_prelude(paths, folds, seed, mode="permuted"):
             saved[p] = _scrambled_copy(p, rng, mode)
         ds = read_datasets(paths, 1)
         tag = recorder.new_run_tag()
-        model = make_model(ds, "linear", 0.05, 2, int(seed) % 1000, 0.0, False, tag=tag)
-        mokapot.brew(ds, model=model, test_fdr=0.2, folds=int(folds) + 1, max_workers=1, rng=int(seed) % 1000 + 1)
+        model = make_model(ds, "linear", 0.25, 2, int(seed) % 1000, 0.0, False, tag=tag)
+        mokapot.brew(ds, model=model, test_fdr=0.25, folds=int(folds) + 1, max_workers=1, rng=int(seed) % 1000 + 1)
         done = True
-    except Exception:  # the prelude's own outcome is irrelevant
-        pass
+    except Exception as e:  # the prelude's own outcome is irrelevant (kept for the counters only)
+        history_prelude.last_error = f"{type(e).__name__}: {str(e)[:80]}"
     finally:
         for p, raw in saved.items():
             Path(p).write_bytes(raw)
